@@ -109,12 +109,16 @@ func (d *Provider) Get(name string) (interface{}, error) {
 		d.callstack = append(d.callstack, name)
 		instance, err := factory(d)
 		if err != nil {
-			return nil, goaterr.Errorf("%v (dependency callstack: %v)", err, d.callstack)
+			err = goaterr.Errorf("%v (dependency callstack: %v)", err, d.callstack)
+		}
+		// unwind the resolution stack on every path: a failed construction is not in progress any more
+		d.callstack = d.callstack[:len(d.callstack)-1]
+		if err != nil {
+			return nil, err
 		}
 		if instance == nil {
 			return nil, goaterr.Errorf("factory for %s return nil as instance", name)
 		}
-		d.callstack = d.callstack[:len(d.callstack)-1]
 		d.clean(name)
 		d.instances[name] = instance
 		return instance, nil
@@ -123,12 +127,15 @@ func (d *Provider) Get(name string) (interface{}, error) {
 		d.callstack = append(d.callstack, name)
 		instance, err := factory(d)
 		if err != nil {
-			return nil, goaterr.Errorf("%v (dependency callstack: %v)", err, d.callstack)
+			err = goaterr.Errorf("%v (dependency callstack: %v)", err, d.callstack)
+		}
+		d.callstack = d.callstack[:len(d.callstack)-1]
+		if err != nil {
+			return nil, err
 		}
 		if instance == nil {
 			return nil, goaterr.Errorf("default factory for %s return nil as instance", name)
 		}
-		d.callstack = d.callstack[:len(d.callstack)-1]
 		if d.autoclean {
 			delete(d.defaultFactories, name)
 		}
